@@ -78,8 +78,11 @@ fn run<T: Sc>(case: &C11Case) -> Check {
         let pl = pool(n);
         let ctl = Ctl::new();
         ctl.burn.store(case.burn, SeqCst);
+        // the same jitter for the closures of builder-made models
+        let bf = crate::models::BFault::new();
+        bf.burn.store(case.burn / 4, SeqCst);
         // (1) mirrored LM run: drive the sequential problem, apply the same alpha to the parallel one
-        let mut par = pl.install(|| par_case.build_at::<T>(None, Some(ctl.clone()))).map_err(|e| Fail::new("build", e))?;
+        let mut par = pl.install(|| par_case.build_with::<T>(None, Some(ctl.clone()), Some(bf.clone()))).map_err(|e| Fail::new("build", e))?;
         {
             let mut visit = |p: &dyn Prob<T>, tag: &str| -> Result<(), Fail> {
                 let a = p.params();
@@ -115,7 +118,7 @@ fn run<T: Sc>(case: &C11Case) -> Check {
         }
         // (3) whole fits
         let fs = seq_case.build::<T>().map_err(|e| Fail::new("build", e))?.fit(&solver);
-        let fp = pl.install(|| par_case.build_at::<T>(None, Some(ctl.clone())).map(|p| p.fit(&solver))).map_err(|e| Fail::new("build", e))?;
+        let fp = pl.install(|| par_case.build_with::<T>(None, Some(ctl.clone()), Some(bf.clone())).map(|p| p.fit(&solver))).map_err(|e| Fail::new("build", e))?;
         let (a, b) = (fit_image(&fs), fit_image(&fp));
         if a != b {
             let what = if a.0 != b.0 || a.1 != b.1 {
@@ -152,7 +155,7 @@ impl Property for C11 {
         "C11"
     }
     fn rule(&self) -> String {
-        "proptest: the same inputs go through new/mrhs and new_parallel/mrhs_parallel; the parallel problem runs inside a dedicated rayon pool (three generated sizes per case, 1..16); hand-written models burn a per-(parameter, call) amount of CPU in eval_partial_deriv to perturb which worker finishes first. Differential oracle (bitwise): coefficients, residuals, Jacobian after every update of an LM run driven on the sequential problem and mirrored on the parallel one; whole fits (termination, evaluations, alpha_hat, C_hat, residuals, objective); into_sequential() preserves the state. Non-trivial: a pool of >= 2 workers and P >= 2 (more than one Jacobian column to distribute)".into()
+        "proptest: the same inputs go through new/mrhs and new_parallel/mrhs_parallel; the parallel problem runs inside a dedicated rayon pool (three generated sizes per case, 1..16); hand-written models burn a per-(parameter, call) amount of CPU in eval_partial_deriv, builder-made models a per-call amount in every closure, to perturb which worker finishes first. Differential oracle (bitwise): coefficients, residuals, Jacobian after every update of an LM run driven on the sequential problem and mirrored on the parallel one; whole fits (termination, evaluations, alpha_hat, C_hat, residuals, objective); into_sequential() preserves the state. Non-trivial: a pool of >= 2 workers and P >= 2 (more than one Jacobian column to distribute)".into()
     }
     fn assumptions(&self) -> Vec<String> {
         vec!["rayon's schedule is sampled (pool sizes x jitter x repetitions), not enumerated".into()]
